@@ -380,6 +380,17 @@ def compare_results(ref, res, cfg, stats=None):
                 return ('resume.measurement_differs',
                         f'{k}: max |diff| = {d:.3e} (first at measurement {where}); ref={a.ravel()[:6]} '
                         f'resumed={b.ravel()[:6]}', {'key': k})
+    if tc == 'dmrg_weak' and cfg['family'] in ('dmrg1', 'dmrg2') and not cfg.get('mixer'):
+        # finite DMRG without mixer, convergence-dependent sweep count: the energies of the resumed sweeps are those
+        # of the uninterrupted run, only the statistics restart (the first Delta_E after a resume is NaN), so the
+        # resumed search can need a sweep more than the uninterrupted one, never fewer.  (Not so for infinite DMRG,
+        # whose energy estimate is built from the growth statistics: there the resumed run can converge a sweep
+        # earlier on the unchanged tree - seen when this invariant was first tried for all families.)
+        s0 = (ref.get('resume_data') or {}).get('sweeps')
+        s1 = (res.get('resume_data') or {}).get('sweeps')
+        if s0 is not None and s1 is not None and int(s1) < int(s0):
+            return ('resume.fewer_sweeps', f'the resumed search stopped after {int(s1)} sweeps, the uninterrupted one '
+                    f'needed {int(s0)} (converged prematurely?)', {})
     # every other top-level entry of the results (e.g. what post-processing adds: spectral functions) must be
     # there and, if numeric, equal
     skip = {'simulation_parameters', 'version_info', 'finished_run', 'measurements', 'psi', 'resume_data', 'energy',
@@ -739,7 +750,7 @@ def minimise(found, budget_s=240.0):
     simplifications = [('ext', '.pkl'), ('clock', 'steady'), ('extra_measurements', False), ('L', 4),
                        ('preexisting_output', False), ('conserve', None), ('save_every', 0.0), ('mixer', None),
                        ('measure_at_checkpoints', False), ('max_hours', None), ('N_sweeps_check', 1),
-                       ('chi_list', None), ('group_sites', 1), ('measure_initial', True), ('save_stats', True), ('save_psi', True), ('wrapped_measurement', False), ('truncerr_measurement', False), ('start_time', 0.0), ('preserve_norm', None), ('combine', False), ('diag_method', 'default'), ('max_sweeps', 3), ('n_outer', 3), ('N_steps', 1), ('chi', 8), ('model', 'TFIChain'),
+                       ('chi_list', None), ('group_sites', 1), ('measure_initial', True), ('save_stats', True), ('save_psi', True), ('canonicalize', False), ('wrapped_measurement', False), ('truncerr_measurement', False), ('start_time', 0.0), ('preserve_norm', None), ('combine', False), ('diag_method', 'default'), ('max_sweeps', 3), ('n_outer', 3), ('N_steps', 1), ('chi', 8), ('model', 'TFIChain'),
                        ('order', 2)]
     for key, val in simplifications:
         if key in best['cfg'] and best['cfg'][key] != val and best['cfg'][key] is not None or (
